@@ -20,6 +20,7 @@ var registry = []*HarnessSpec{
 	{Prop: "C13", Name: "zzH13b", Pkg: pkgSystem, Tier: "quick", Params: map[string]int{"messages": 2}, Bounds: "2 rtnetlink address messages with symbolic 32-bit flags, prefix length, cache lifetime and address; execute failing or not"},
 	{Prop: "C14", Name: "zzH13b", Pkg: pkgSystem, Tier: "quick", Params: map[string]int{"messages": 2}, Bounds: "address flags source (shared with C13)"},
 	{Prop: "C15", Name: "zzH15b", Pkg: pkgSystem, Tier: "quick", Bounds: "2 interfaces with symbolic flags, one symbolic route message per queried interface"},
+	{Prop: "C04", Name: "zzH04sched", Pkg: pkgCorerad, Tier: "quick", MonoTime: true, NoNative: true, Bounds: "one request (all-nodes or an arbitrary unicast source) queued by the real scheduler; forwarding symbolic when the RA is queued and again when it is sent"},
 	{Prop: "C04", Name: "zzH04c", Pkg: pkgSystem, Tier: "quick", Bounds: "sysctl file content of 0..2 arbitrary bytes or a read error; forwarding and autoconf keys; write of either value"},
 	{Prop: "C11", Name: "zzH04c", Pkg: pkgSystem, Tier: "quick", Bounds: "the kernel autoconfiguration accessors behind system.State: the getter reads this interface's autoconf sysctl (true iff \"1\\n\"), the setter writes it (0..2 arbitrary content bytes or a read error)"},
 	{Prop: "C10", Name: "zzH10g", Pkg: pkgSystem, Tier: "quick", Bounds: "lookupInterface over the four outcomes of net.InterfaceByName (found; package net's no-such-interface OpError; another OpError; opaque error)"},
@@ -27,6 +28,8 @@ var registry = []*HarnessSpec{
 	{Prop: "C17", Name: "zzH17b", Pkg: pkgCrhttp, Tier: "quick", Unwind: 200, Bounds: "debug API request for a monitoring interface plus an advertising interface with one stanza of every kind (real parser), prepared or never prepared, forwarding symbolic, State read failing or not"},
 	{Prop: "C04", Name: "zzH17b", Pkg: pkgCrhttp, Tier: "quick", Unwind: 200, Bounds: "debug-API path: the rendered router lifetime follows the forwarding state read for the request"},
 	{Prop: "C17", Name: "zzH17d", Pkg: pkgCrhttp, Tier: "quick", Bounds: "Handler.ServeHTTP for the paths /, /metrics, /debug/pprof/, /_/api/interfaces, /other with nothing optional enabled; mux dispatch and banner are environment stubs"},
+	{Prop: "C17", Name: "zzH17e", Pkg: pkgCorerad, Extra: []string{pkgConfig}, Tier: "quick", Unwind: 600, Bounds: "scrape of one advertising interface carrying the stanzas of one kind only (9 kinds incl. deprecated explicit prefix, deprecated route, wildcards), prepared or never prepared, real parser, symbolic lifetimes and clock"},
+	{Prop: "C17", Name: "zzH17f", Pkg: pkgCrhttp, Extra: []string{pkgConfig}, Tier: "quick", Unwind: 200, Bounds: "debug-API request for one never-initialised advertising interface carrying the stanzas of one kind only (9 kinds), real parser, symbolic lifetimes"},
 	{Prop: "C17", Name: "zzH17c", Pkg: pkgCrhttp, Tier: "quick", Bounds: "all four (prometheus, pprof) combinations"},
 	{Prop: "C17", Name: "zzH17a", Pkg: pkgCorerad, Tier: "quick", Unwind: 600, Bounds: "three interfaces (advertising with one stanza of every kind parsed by the real parser, monitoring, neither) in 3 orders; plugins prepared or never prepared; forwarding/autoconf per interface symbolic; lifetimes symbolic"},
 	{Prop: "C04", Name: "zzH17a", Pkg: pkgCorerad, Tier: "quick", Unwind: 600, Bounds: "metrics-scrape path: forwarding read per scrape, misconfiguration gauge iff not forwarding with a non-zero configured lifetime"},
